@@ -473,6 +473,13 @@ def classify(program, block, ds, seq, valid, real):
     return "mismatch:accepts-invalid"
 
 
+def delayed_by_uncrossed(block):
+    """POST_PREAMBLE with an uncrossed complex factor that starts later than every crossing (known finding
+    mismatch:accepts-invalid:crossing:alignment-preamble: the code reading differs from the documentation)."""
+    from sweetpea._internal.cross_block import AlignmentMode
+    return block.alignment == AlignmentMode.POST_PREAMBLE and block._alignment_preamble > max(block.preamble_sizes + [0])
+
+
 def code_chunks(block):
     """(first trial, chunk length, sustain x weight) per crossing as the checker uses them."""
     from sweetpea._internal.cross_block import AlignmentMode
@@ -699,6 +706,8 @@ def run(ctx, res):
                     stats["theorem-fragment-derived:candidates:beyond-nfrag"] += 1
                 if (dfragv[2] == "true") != valid:
                     stats["theorem-fragment-derived:code_sem-vs-doc_sem-differ"] += 1
+                    stats["theorem-fragment-derived:code_sem-vs-doc_sem-differ:%s:%s" % (
+                        pr["name"], "alignment-preamble" if delayed_by_uncrossed(blk) else "other")] += 1
             # --- the same for C17_mismatch_iff_valid_excluded: inside efrag and wf_rowsb_d, no_mismatch = valid_b (code_sem_x fb)
             if in_efrag and efragv is not None and efragv[0] == "true":
                 ok_t = (efragv[1] == efragv[2])
@@ -710,6 +719,9 @@ def run(ctx, res):
                     stats["theorem-fragment-excluded:candidates:beyond-dfrag"] += 1
                 if (efragv[2] == "true") != valid:
                     stats["theorem-fragment-excluded:code_sem-vs-doc_sem-differ"] += 1
+                    if not in_dfrag:
+                        stats["theorem-fragment-excluded:code_sem-vs-doc_sem-differ:%s:%s" % (
+                            pr["name"], "trial-count-differs(C16)" if pr["T_real"] != ds.T else "other")] += 1
             # --- search: the property itself, on candidates of its domain
             dom = in_domain(ds, pr["app"], q)
             stats["domain:" + ("in" if dom else "out")] += 1
